@@ -150,6 +150,6 @@ def run(tier):
             if t["callee"] and t["callee"]["path"] == STAB:
                 users.append((bb.id, common.where(t)))
     rep.extra["call_sites_of_stabilize"] = users
-    rep.floor("call sites of stabilize", len(users), 3)
+    rep.floor("call sites of stabilize", len(users), 1)
     rep.assumptions += ["Cow<str> equality is content equality (std)", "f is a function: equal arguments give equal results (C16)"]
     return rep
